@@ -185,7 +185,7 @@ func allChecks() []CheckSpec {
 					Bounds: "address rewrite none / replace-with-nothing / append one address; context live or cancelled", MustReach: []string{"rewrite-drops", "cancelled", "adopted", "not-adopted", "done"},
 					Cfg: func(c *HarnessCfg, tier int) { c.GoPolicy = "queue" }},
 				{Fn: "verifC09RelayBody", Lemma: "the goroutine body of gatherCandidatesRelay (TURN over UDP) with a fake net and TURN client factory: local socket, client and allocation are released exactly once on every failure (listen, factory, Listen, Allocate, location-tracked address, cancelled context) and adopted otherwise",
-					Bounds: "one TURN/UDP URL; 7 fault kinds (incl. the allocation's Close reporting an error at teardown) x context live/cancelled", MustReach: []string{"adopted", "released", "no-socket", "allocation-close-fails", "done"},
+					Bounds: "one TURN/UDP URL; 7 fault kinds (incl. the allocation's Close reporting an error at teardown) x context live/cancelled", MustReach: []string{"adopted", "released", "no-socket", "allocation-close-fails", "relay-outside-configured-network-types", "done"},
 					Cfg: func(c *HarnessCfg, tier int) { c.GoPolicy = "queue"; c.GoRunMatch = "gatherCandidatesRelay$1" }},
 			},
 			Assumptions: append([]string{
@@ -324,7 +324,7 @@ func allChecks() []CheckSpec {
 				{Fn: "verifC06AddLocal", Lemma: "local candidate arrival (real addCandidate): new => paired with every remote and published once; duplicate => rejected, its socket closed once, not published; invariant holds",
 					Bounds: "1 local + 2 remotes, new/duplicate", MustReach: []string{"duplicate", "new", "done"}},
 				{Fn: "verifC06RestartAndFailed", Lemma: "Restart and the Failed transition leave no pairs, index entries, candidates, selection or outstanding transactions; the pair id counter is not reset",
-					Bounds: "2+2 candidates, 4 pairs, a selection and an outstanding transaction; local candidates bare or started (receive loops), the first socket's Close succeeding or reporting an error", MustReach: []string{"restart", "failed", "socket-close-fails", "done"},
+					Bounds: "2+2 candidates, 4 pairs, a selection and an outstanding transaction; local candidates bare or started (receive loops), the first socket's Close succeeding or reporting an error", MustReach: []string{"restart", "failed", "socket-close-fails", "candidate-outside-configured-network-types", "done"},
 					Cfg: func(c *HarnessCfg, tier int) { c.GoPolicy = "queue" }},
 			},
 			Assumptions: append([]string{
@@ -440,7 +440,7 @@ func allChecks() []CheckSpec {
 			ID: "C05",
 			Harnesses: []HarnessSpec{
 				{Fn: "verifC05RoleConflict", Lemma: "one authenticated Binding request into the real handleInbound: conflict iff the claimed role equals the own role; on conflict the role is kept and a 487 Binding error echoing the transaction id is sent iff (controlling and local>=remote) or (controlled and local<remote), otherwise the role flips, the selector is replaced and nothing is sent; never a success response, pair change, selection or new candidate; without conflict the request is answered",
-					Bounds: "all 2^64 x 2^64 (local, remote) tie-breakers, both own roles, attribute kinds {none, controlling, controlled, both}, with/without USE-CANDIDATE; 1 local + 1 remote UDP candidate, full agent", MustReach: []string{"conflict", "487", "switch", "no-conflict", "done"}},
+					Bounds: "all 2^64 x 2^64 (local, remote) tie-breakers, both own roles, attribute kinds {none, controlling, controlled, both}, with/without USE-CANDIDATE; 1 local + 1 remote UDP candidate, full agent", MustReach: []string{"conflict", "487", "switch", "no-conflict", "unknown-source", "done"}},
 				{Fn: "verifC05Pairwise", Lemma: "two agents in the same role with distinct tie-breakers: exactly one of the two cross-handled requests makes its receiver switch",
 					Bounds: "all distinct 64-bit tie-breaker pairs, both same-role starts", MustReach: []string{"done"}},
 			},
